@@ -736,6 +736,10 @@ def norm_schema(s):
             continue      # positional items: absent = true (the model's AST carries a Bool); otherwise literal
         elif k in ("description", "$schema", "title", "$comment", "examples"):
             continue      # annotations: no effect on what the schema admits
+        elif k in ("minItems", "maxItems", "minProperties", "maxProperties") and s.get("type", "object") == "object" \
+                and "$ref" not in s and not any(m in s for m in ("allOf", "anyOf", "oneOf", "not", "enum")):
+            # the size of an object: typedpy's dialect reads minItems / maxItems, exports minProperties / maxProperties
+            out[{"minItems": "minProperties", "maxItems": "maxProperties"}.get(k, k)] = v
         elif k == "properties":
             out[k] = {n: norm_schema(x) for n, x in v.items()}
         elif k in ("enum", "default"):
@@ -1085,7 +1089,7 @@ def judge(case, impl, model):
         elif model.get("nameIssue") and not (phase_i == "exec" and impl.get("err") != "NameError"):
             key = f"{phase_i}:name-not-identifier"
         elif not model["refsOrdered"]:
-            key = "exec:forward-ref"
+            key = "exec:cyclic-ref"
         else:
             key = f"{phase_i}:unexpected"
         fails.append((key, f"generated source does not {'compile' if phase_i == 'compile' else 'execute'}: "
